@@ -5,6 +5,7 @@ package serialize
 import (
 	"errors"
 	"fmt"
+	"math"
 	"reflect"
 	"strings"
 
@@ -63,6 +64,10 @@ func listToMsg(msgType wamp.MessageType, vlist []any) (wamp.Message, error) {
 		}
 		// Cannot directly assign, so try to convert and assign.
 		if arg.Type().ConvertibleTo(f.Type()) {
+			if !convertibleValue(arg, f.Type()) {
+				return nil, fmt.Errorf("field %d not recognized, has %s, want %s",
+					i+1, arg.Type(), f.Type())
+			}
 			f.Set(arg.Convert(f.Type()))
 			continue
 		}
@@ -91,6 +96,33 @@ func listToMsg(msgType wamp.MessageType, vlist []any) (wamp.Message, error) {
 		panic(fmt.Sprintf("internal message field %d not recognized", i+1))
 	}
 	return msg, nil
+}
+
+// convertibleValue reports whether a Go conversion of the value to a message
+// field of the given type keeps its meaning. Go converts an integer to a
+// string (the character with that code) and any number to any integer type
+// (truncating, wrapping); neither makes a field of the wrong kind or a
+// fractional or negative ID acceptable.
+func convertibleValue(v reflect.Value, t reflect.Type) bool {
+	isInt := func(k reflect.Kind) bool { return k >= reflect.Int && k <= reflect.Int64 }
+	isUint := func(k reflect.Kind) bool { return k >= reflect.Uint && k <= reflect.Uintptr }
+	isFloat := func(k reflect.Kind) bool { return k == reflect.Float32 || k == reflect.Float64 }
+	switch tk := t.Kind(); {
+	case tk == reflect.String:
+		return v.Kind() == reflect.String
+	case isInt(tk) || isUint(tk):
+		switch vk := v.Kind(); {
+		case isInt(vk):
+			return isInt(tk) || v.Int() >= 0
+		case isUint(vk):
+			return isUint(tk) || v.Uint() <= math.MaxInt64
+		case isFloat(vk):
+			f := v.Float()
+			return f == math.Trunc(f) && math.Abs(f) <= 1<<53 && (isInt(tk) || f >= 0)
+		}
+		return false
+	}
+	return true
 }
 
 // convertType converts a value to the specified type if necessary/possible.
